@@ -7,9 +7,9 @@ hook_commits = [l.split()[0] for l in hooks if "verif hook" in l]
 CLAIMED = {
  "C01": ("exploration", "2,5", "seeded schedule/fault search over the real pipeline; exhaustive length windows around every chunk boundary at reduced chunk sizes plus the production 16 MiB constants; oracle: decrypt(encrypt(P)) == P and both return true"),
  "C02": ("exploration", "3,5", "refinement against an independent executable reference (OpenSSL) of the file format, byte for byte, on every simulated encryption"),
- "C03": ("exploration", "3,5", "many seeded schedules per input compared with the canonical schedule + address-free exactly-once ledger from cipher-stream spies"),
- "C04": ("exploration", "2.2,5", "bounded liveness: scheduler reports 'nobody runnable, somebody unfinished', step budget, unjoined threads; spurious wake-ups and starved threads injected"),
- "C14": ("exploration", "3,5", "ownership monitor on every explored schedule: per-buffer phase automaton + vector-clock happens-before over simulated mutex/thread edges"),
+ "C03": ("exploration", "3,5,10.9,10.16", "many seeded schedules per input compared with the canonical schedule + address-free exactly-once ledger from cipher-stream spies; bounded enumeration of single preemptions / spurious wake-ups on small configurations; a variant with scheduling points at instrumented memory accesses (tsi) and scenarios run as first operations of a pristine process"),
+ "C04": ("exploration", "2.2,5,10.9,10.16", "bounded liveness: scheduler reports 'nobody runnable, somebody unfinished', step budget, unjoined threads, wall watchdog for loops without scheduling points; spurious wake-ups, time-outs and starved threads injected; bounded enumeration; tsi variant (memory-access scheduling points)"),
+ "C14": ("exploration", "3,5,10.16", "ownership monitor on every explored schedule: per-buffer phase automaton + vector-clock happens-before over simulated mutex / thread / atomic edges at the hooks, and in the tsi variant over every instrumented load/store of chunk-buffer memory"),
  "C18": ("exploration", "5", "IV of every cipher stream recovered from multi-chunk ciphertext produced by the simulated pipeline"),
 }
 NA = {
@@ -35,7 +35,7 @@ def main():
     m = dict(version=1, setup_cmd="./check selftest build",
         hooks=dict(guard="WENCRY_VERIF", enable="./check compiles /repo's kernel/ and valget/ sources itself with -DWENCRY_VERIF [-DWENCRY_VERIF_BUF_BLOCKS=n -DWENCRY_VERIF_HBUF_BLOCKS=m] and -include sim/sim_std.h",
                    baseline_off_cmd="./check baseline-off", source_commits=hook_commits, add_only=True),
-        engines=[dict(name="simrun", path="sim/", serves_properties=sorted(claimed), kind_free_text="deterministic simulator: baton-passing scheduler over real threads, fopencookie file layer, OpenSSL reference model, monitors; driven by ./check")],
+        engines=[dict(name="simrun", path="sim/", serves_properties=sorted(claimed), kind_free_text="deterministic simulator: baton-passing scheduler over real parked threads (std::mutex/condition_variable/thread/atomic replaced by forced include; optional -fsanitize=thread instrumentation routed into the scheduler), fopencookie file layer with storage/crash faults, OpenSSL reference model, ownership and exactly-once monitors, fork-based fresh-process oracle; driven by ./check")],
         checks=checks, not_applicable=[dict(property_id=k, reason=v) for k, v in sorted(na.items())],
         notes="See DESIGN.md. Known findings: KNOWN_FINDINGS.txt.")
     json.dump(m, open(os.path.join(V, "MANIFEST.json"), "w"), indent=1)
